@@ -63,6 +63,27 @@ Theorem C12_roundtrip_bytes : forall ops vs, weights_fit ops -> Forall (fun p =>
               Permutation (v_values vs') (v_values vs) /\ encode_rlp vs' = encode_rlp vs.
 Proof. exact roundtrip_bytes. Qed.
 
+(* DecodeRLP replaces the whole target object (decode_step models `*vv = *builder.Build()`): over every
+   history of decodes into one reused target, the k-th result is the result of decoding the k-th
+   input into a fresh object - it does not depend on what the target held before *)
+Theorem C12_decode_history_independent : forall t bss, decode_run t bss = map decode_fresh bss.
+Proof. intros t bss; exact (decode_run_history_independent bss t). Qed.
+Theorem C12_decode_into_any_target : forall ops vs t, weights_fit ops -> Forall (fun p => fst p < two64) ops ->
+  build ops = Some vs ->
+  exists vs', decode_step t (encode_rlp vs) = (vs', DOk vs') /\ v_cache vs' = v_cache vs /\
+              Permutation (v_values vs') (v_values vs) /\ encode_rlp vs' = encode_rlp vs.
+Proof. exact decode_into_any_target. Qed.
+(* contrast, not the code: filling the target's map in place gives the union of old and new pairs *)
+Example C12_ex_inplace_decode_is_not_history_independent :
+  let b1 := rlp_array [(1, 50); (2, 40)] in
+  let b2 := rlp_array [(2, 7); (3, 9)] in
+  let t1 := fst (decode_step_inplace empty_validators b1) in
+  match snd (decode_step_inplace t1 b2), snd (decode_step t1 b2) with
+  | DOk u, DOk v => sorted_ids u = [1; 3; 2] /\ sorted_ids v = [3; 2]
+  | _, _ => False
+  end.
+Proof. exact decode_inplace_not_history_independent. Qed.
+
 (* --- big stakes ---
    Model: model/PosBig.v, stakes as the Go type has them (big.Int pointers: signed Z, or nil = None).
    DOMAIN: the property speaks of stakes ("up to 2^256"), i.e. non-negative amounts.  Every theorem
@@ -165,6 +186,8 @@ Print Assumptions C12_build_guard.
 Print Assumptions C12_roundtrip.
 Print Assumptions C12_rlp_reader_inverts_writer.
 Print Assumptions C12_roundtrip_bytes.
+Print Assumptions C12_decode_history_independent.
+Print Assumptions C12_decode_into_any_target.
 Print Assumptions C12_big_build.
 Print Assumptions C12_big_never_panics.
 Print Assumptions C12_big_canon_ok.
